@@ -129,7 +129,8 @@ func rebase(ref *Ref, v *url.URL, notEqual bool) (Ref, bool) {
 
 	newBase.Fragment = u.Fragment
 
-	if strings.HasPrefix(u.Path, docPath) {
+	if strings.HasPrefix(u.Path, docPath) && (len(u.Path) == len(docPath) || u.Path[len(docPath)] == '/') {
+		// the document itself, or something below it: a mere common prefix of the names is not enough
 		newBase.Path = strings.TrimPrefix(u.Path, docPath)
 	} else {
 		newBase.Path = strings.TrimPrefix(u.Path, v.Path)
